@@ -398,3 +398,20 @@ PROPS["C12"] = Prop(
     technique="runtime monitor: canonical-dump equality, cross-mutation monitor and destroy-one-then-use-the-other under gcc ASan+LSan (shared storage shows as use-after-free / double free)",
     level_text="exploration: dups of modified topologies; independence is decided by ASan/LSan on destruction-order tests plus dump comparisons after every call on the other copy",
 )
+
+
+PROPS["C13"] = Prop(
+    "C13",
+    [Stage("asan", "c13_distances", "asan", quick=4000, thorough=80000, per_worker_env=xml_backend_env)],
+    rule=("reference list model {name, kind, objects by (type, gp_index), values}: histories of 4-11 calls on a topology loaded without distances "
+          "(valid and invalid add_create/add_values/add_commit incl. grouping flags, remove / remove_by_depth / release_remove, restrict, dup and "
+          "XML round trip as carriers, the four transforms on a private NVLinkBandwidth matrix with switch ports at random positions); after "
+          "every call get / get_by_depth / get_by_type-equivalent / get_by_name are compared with the model as multisets for array sizes "
+          "0, exact, larger, smaller (count, filled entries, poison beyond), every returned object must be an object of this topology. "
+          "distinct+non-trivial = class 1: histories ending with >= 2 live structures that crossed >= 1 carrier, keyed by operation sequence"),
+    nontrivial_classes=[1], floor=100,
+    assumptions=COMMON_ASSUME + ["structures are compared as multisets: the order in which get() returns them is not part of the property",
+                                 "the topology is loaded with NO_DISTANCES so that the model starts empty; OS/XML-provided matrices are covered by C05/C12"],
+    technique="runtime monitor: executable reference model of the distances list checked after every call, under gcc ASan+UBSan+LSan",
+    level_text="exploration: random add/remove/restrict/dup/XML/transform histories against a reference list model, all query variants after every call",
+)
